@@ -92,43 +92,102 @@ theorem SndOK.congr_sns {una nxt wnd : U32} {buf buf' : List Seg} (h : SndOK una
     have := congrArg List.length e; simpa using this
   exact ⟨h.small, consec_congr e _ h.consec, by rw [hl]; exact h.nxt_eq, by rw [hl]; exact h.len_le⟩
 
-theorem shrinkUna_nxt (k : Kcp) (una : U32) : (shrinkBuf (parseUna k una).1).snd_nxt = k.snd_nxt := by
-  unfold shrinkBuf parseUna; split <;> rfl
-theorem shrinkUna_wnd (k : Kcp) (una : U32) : (shrinkBuf (parseUna k una).1).snd_wnd = k.snd_wnd := by
-  unfold shrinkBuf parseUna; split <;> rfl
-theorem shrinkUna_buf (k : Kcp) (una : U32) :
-    (shrinkBuf (parseUna k una).1).snd_buf = k.snd_buf.drop (unaCount una k.snd_buf) := by
-  unfold shrinkBuf parseUna; split <;> rfl
+/-- the `sn` of the head of a send buffer, or `nxt` when it is empty: what `shrink_buf` assigns to `snd_una` -/
+def headSn (nxt : U32) : List Seg → U32
+  | s :: _ => s.sn
+  | [] => nxt
 
-/-- `parse_una` followed by `shrink_buf`, for ANY (forged) `una` -/
-theorem SndOK.una {k : Kcp} (h : SndOK k.snd_una k.snd_nxt k.snd_wnd k.snd_buf) (una : U32) :
-    SndOK (shrinkBuf (parseUna k una).1).snd_una k.snd_nxt k.snd_wnd (k.snd_buf.drop (unaCount una k.snd_buf)) := by
-  have hc := unaCount_le una k.snd_buf
-  have hd := consec_drop _ _ (unaCount una k.snd_buf) h.consec
-  have hlen : (k.snd_buf.drop (unaCount una k.snd_buf)).length = k.snd_buf.length - unaCount una k.snd_buf :=
-    List.length_drop
+/-- dropping ANY number of head segments and re-establishing `snd_una` from the new head keeps the
+send invariant (`parse_una` with a forged `una`, and the acknowledged heads popped by `shrink_buf`) -/
+theorem SndOK.dropHead {una nxt wnd : U32} {buf : List Seg} (h : SndOK una nxt wnd buf) (c : Nat)
+    (hc : c ≤ buf.length) : SndOK (headSn nxt (buf.drop c)) nxt wnd (buf.drop c) := by
+  have hd := consec_drop _ _ c h.consec
+  have hlen : (buf.drop c).length = buf.length - c := List.length_drop
   have hne := h.nxt_eq
   have hsm := h.small
   have hle := h.len_le
-  unfold shrinkBuf parseUna
-  split
-  · rename_i s t heq
-    simp only [] at heq
+  cases heq : buf.drop c with
+  | cons s t =>
     rw [heq] at hd hlen
     refine ⟨hsm, ?_, ?_, ?_⟩
-    · simp only [heq]; rw [hd.1]; exact hd
-    · simp only [heq]; rw [hd.1, hne, hlen]
-      generalize unaCount una k.snd_buf = c at *
+    · show Consec s.sn (s :: t); rw [hd.1]; exact hd
+    · show nxt = s.sn + _
+      rw [hd.1, hne, hlen]
       simp only [List.length_cons] at hlen
       bv_omega
-    · simp only [heq]; omega
-  · rename_i heq
-    simp only [] at heq
+    · rw [hlen]; omega
+  | nil =>
     rw [heq] at hlen
-    refine ⟨hsm, ?_, ?_, ?_⟩
-    · simp only [heq]; trivial
-    · simp only [heq]; simp
-    · simp only [heq]; simp
+    refine ⟨hsm, trivial, ?_, Nat.zero_le _⟩
+    show nxt = nxt + BitVec.ofNat 32 0
+    simp
+
+/-- the number of leading segments already acknowledged one by one -/
+def ackedCount : List Seg → Nat
+  | [] => 0
+  | s :: r => if s.acked then ackedCount r + 1 else 0
+
+theorem ackedCount_le (l : List Seg) : ackedCount l ≤ l.length := by
+  induction l with
+  | nil => exact Nat.le_refl _
+  | cons s r ih => unfold ackedCount; split <;> simp only [List.length_cons] <;> omega
+
+theorem dropAcked_eq_drop (l : List Seg) : dropAcked l = l.drop (ackedCount l) := by
+  induction l with
+  | nil => rfl
+  | cons s r ih =>
+    unfold dropAcked ackedCount
+    split
+    · rw [ih]; rfl
+    · rfl
+
+/-- `shrink_buf`: a prefix of `snd_buf` goes, `snd_una` is re-established from the new head -/
+theorem shrinkBuf_spec (k : Kcp) :
+    (shrinkBuf k).snd_buf = k.snd_buf.drop (ackedCount k.snd_buf) ∧
+    (shrinkBuf k).snd_una = headSn k.snd_nxt (k.snd_buf.drop (ackedCount k.snd_buf)) ∧
+    (shrinkBuf k).snd_nxt = k.snd_nxt ∧ (shrinkBuf k).snd_wnd = k.snd_wnd := by
+  rw [← dropAcked_eq_drop]
+  unfold shrinkBuf
+  split
+  · rename_i s t heq; rw [heq]; exact ⟨rfl, rfl, rfl, rfl⟩
+  · rename_i heq; rw [heq]; exact ⟨rfl, rfl, rfl, rfl⟩
+
+/-- `shrink_buf` keeps the send invariant -/
+theorem SndOK.shrink {k : Kcp} (h : SndOK k.snd_una k.snd_nxt k.snd_wnd k.snd_buf) :
+    SndOK (shrinkBuf k).snd_una (shrinkBuf k).snd_nxt (shrinkBuf k).snd_wnd (shrinkBuf k).snd_buf := by
+  obtain ⟨e1, e2, e3, e4⟩ := shrinkBuf_spec k
+  rw [e1, e2, e3, e4]
+  exact h.dropHead _ (ackedCount_le _)
+
+/-- how many head segments `parse_una` + `shrink_buf` remove: those below `una`, then the acknowledged ones -/
+def unaDrop (una : U32) (l : List Seg) : Nat := unaCount una l + ackedCount (l.drop (unaCount una l))
+
+theorem unaDrop_le (una : U32) (l : List Seg) : unaDrop una l ≤ l.length := by
+  unfold unaDrop
+  have h1 := unaCount_le una l
+  have h2 := ackedCount_le (l.drop (unaCount una l))
+  rw [List.length_drop] at h2
+  omega
+
+theorem shrinkUna_nxt (k : Kcp) (una : U32) : (shrinkBuf (parseUna k una).1).snd_nxt = k.snd_nxt :=
+  (shrinkBuf_spec (parseUna k una).1).2.2.1
+theorem shrinkUna_wnd (k : Kcp) (una : U32) : (shrinkBuf (parseUna k una).1).snd_wnd = k.snd_wnd :=
+  (shrinkBuf_spec (parseUna k una).1).2.2.2
+theorem shrinkUna_buf (k : Kcp) (una : U32) :
+    (shrinkBuf (parseUna k una).1).snd_buf = k.snd_buf.drop (unaDrop una k.snd_buf) := by
+  rw [(shrinkBuf_spec (parseUna k una).1).1]
+  show (k.snd_buf.drop (unaCount una k.snd_buf)).drop _ = _
+  rw [List.drop_drop]; rfl
+
+/-- `parse_una` followed by `shrink_buf`, for ANY (forged) `una` -/
+theorem SndOK.una {k : Kcp} (h : SndOK k.snd_una k.snd_nxt k.snd_wnd k.snd_buf) (una : U32) :
+    SndOK (shrinkBuf (parseUna k una).1).snd_una k.snd_nxt k.snd_wnd (k.snd_buf.drop (unaDrop una k.snd_buf)) := by
+  have e : (shrinkBuf (parseUna k una).1).snd_una = headSn k.snd_nxt (k.snd_buf.drop (unaDrop una k.snd_buf)) := by
+    rw [(shrinkBuf_spec (parseUna k una).1).2.1]
+    show headSn k.snd_nxt ((k.snd_buf.drop (unaCount una k.snd_buf)).drop _) = _
+    rw [List.drop_drop]; rfl
+  rw [e]
+  exact h.dropHead _ (unaDrop_le _ _)
 
 /-- the admission test of phase 4, read as an unsigned comparison of the in-flight count -/
 theorem admit_guard {una nxt wnd cwnd : U32} {buf : List Seg} (h : SndOK una nxt wnd buf)
